@@ -1,6 +1,6 @@
 (* C07  Expression trees follow the C/C++ operator grammar: property statements only. *)
 From Coq Require Import List NArith Bool.
-From CV Require Import Ast.Defs Ast.Main1 Ast.Main2 Ast.NoDecl Ast.Main3 Ast.Main4 Ast.Labels Ast.Final.
+From CV Require Import Ast.Defs Ast.Main1 Ast.Main2 Ast.NoDecl Ast.Main3 Ast.Main4 Ast.Labels Ast.Prep Ast.Final.
 Import ListNotations.
 Local Open Scope N_scope.
 
@@ -112,16 +112,15 @@ Proof. vm_compute. repeat split; reflexivity. Qed.
    Additional premises for ?: :
    - [mid_ok e]: the middle operand of every ?: is not a comma expression and, if it is an assignment or
      conditional expression, contains no '?';
-   - prepareTernaryOpForAST leaves the rendering unchanged (it inserts parentheses around a middle operand that
-     has a , < or ? outside brackets; that case is exercised by the correspondence run only).
+   - [plainmid e]: no middle operand has a , < or ? outside brackets, i.e. prepareTernaryOpForAST inserts
+     nothing (proved: Ast/Prep.v; where it inserts parentheses see C07_prep_render and the correspondence run).
    Missing for the full language: those middle operands, and casts (iscast is not modelled). *)
 Theorem C07_parse_render_stage5_partial :
   forall (cpp : bool) (e : expr),
-    frag5 e = true -> wf e = true -> labels_ok e = true -> mid_ok e = true ->
+    frag5 e = true -> wf e = true -> labels_ok e = true -> mid_ok e = true -> plainmid e = true ->
     decl_like (render e) = false ->
-    prep (2 * length (render e ++ [semi])) (render e ++ [semi]) = render e ++ [semi] ->
     parse cpp (render e) = Some (tree_of e).
-Proof. exact parse_render_stage5. Qed.
+Proof. exact parse_render_stage5_syn. Qed.
 Print Assumptions C07_parse_render_stage5_partial.
 
 (* the premises are inhabited:
@@ -135,10 +134,17 @@ Example C07_stage5_premises :
        (EAsg 0 AEq (EId 0 1)
           (ECond 0 0 (EIdx 0 (EId 0 4) (ENum 0 0)) (EAsg 0 AEq (EId 0 5) (ECall 0 (EId 0 8) (ENum 0 1)))
              (ECond 0 0 (EPar 0 (EComma 0 (EId 0 0) (EId 0 1))) (ENum 0 3) (EPost 0 QInc (EMem 0 0 (EId 0 6) 11)))))) in
-  frag5 e = true /\ wf e = true /\ labels_ok e = true /\ mid_ok e = true /\ decl_like (render e) = false /\
-  prep (2 * length (render e ++ [semi])) (render e ++ [semi]) = render e ++ [semi] /\
+  frag5 e = true /\ wf e = true /\ labels_ok e = true /\ mid_ok e = true /\ plainmid e = true /\
+  decl_like (render e) = false /\
   parse false (render e) = Some (tree_of e) /\ parse true (render e) = Some (tree_of e).
 Proof. vm_compute. repeat split; reflexivity. Qed.
+
+(* prepareTernaryOpForAST on any rendering (all of [expr], casts included): it yields [renderP e], the rendering
+   with parentheses around exactly the middle operands that have a , < or ? outside brackets. *)
+Theorem C07_prep_render :
+  forall e : expr, prep (2 * length (render e ++ [semi])) (render e ++ [semi]) = renderP e ++ [semi].
+Proof. exact prep_render. Qed.
+Print Assumptions C07_prep_render.
 
 (* The premise [labels_ok] is no restriction on expressions: labelling every node token with its position in the
    rendering ([canon], what the correspondence run does) satisfies it, for every expression. *)
@@ -149,8 +155,7 @@ Print Assumptions C07_labels_ok_canon.
 (* hence stage 5 for position-labelled expressions without the label premise *)
 Theorem C07_parse_render_canon_partial :
   forall (cpp : bool) (e0 : expr), let e := canon e0 in
-    frag5 e = true -> wf e = true -> mid_ok e = true -> decl_like (render e) = false ->
-    prep (2 * length (render e ++ [semi])) (render e ++ [semi]) = render e ++ [semi] ->
+    frag5 e = true -> wf e = true -> mid_ok e = true -> plainmid e = true -> decl_like (render e) = false ->
     parse cpp (render e) = Some (tree_of e).
 Proof. exact parse_render_canon. Qed.
 Print Assumptions C07_parse_render_canon_partial.
